@@ -641,6 +641,13 @@ class Engine:
                 e = z3.Or(es + [z3.BoolVal(False)])
             elif isinstance(b, VHeapDict):
                 e = z3.Select(z3.Select(st.heap[b.key + '#has'], b.owner), self.unwrap(b.kkind, a))
+            elif isinstance(b, VStr) and isinstance(a, VStr):
+                # substring test: an opaque relation of the two texts (true for equal texts)
+                sub = z3.Function('str_contains', T.S, T.S, T.B)(b.z, a.z)
+                e = z3.Or(a.z == b.z, sub)
+            elif isinstance(b, VBytes) and isinstance(a, VBytes):
+                sub = z3.Function('bytes_contains', T.Bytes, T.Bytes, T.B)(b.z, a.z)
+                e = z3.Or(a.z == b.z, sub)
             else:
                 raise Untranslated('in on %s' % b.kind)
             return VBool(e if isinstance(op, ast.In) else z3.Not(e)), raises
